@@ -29,21 +29,21 @@ Proof.
   assert (G : forall f, v = mkfv u f -> (has_flag f FLG_MAGLEV = true -> s_maglev (u_svc u) = true) ->
               s_maglev (u_svc u) = true /\ fv_count v = u_count u /\ fv_id v = u_id u).
   { intros f -> X. simpl in F. auto. }
-  assert (M : forall a b, has_flag (flag a FLG_INT_LOCAL + flag (s_maglev (u_svc u) && b) FLG_MAGLEV) FLG_MAGLEV = true -> s_maglev (u_svc u) = true).
-  { intros a b. destruct a, (s_maglev (u_svc u)), b; vm_compute; auto. }
+  assert (M : forall a b x, has_flag (flag a FLG_INT_LOCAL + flag (s_maglev (u_svc u) && b) FLG_MAGLEV + flag x FLG_EXCLUDE) FLG_MAGLEV = true -> s_maglev (u_svc u) = true).
+  { intros a b x. destruct a, (s_maglev (u_svc u)), b, x; vm_compute; auto. }
   destruct (negb (u_node u =? 0)).
   - destruct H as [H|[]]. inversion H; subst. eapply G; [reflexivity|apply M].
   - destruct H as [H|H].
     + inversion H; subst. eapply G; [reflexivity|apply M].
     + apply in_app_or in H. destruct H as [H|H].
       { apply in_map_iff in H. destruct H as [a [E _]]. inversion E; subst. eapply G; [reflexivity|].
-        destruct (s_maglev (u_svc u)), (s_extlocal (u_svc u)), (s_intlocal (u_svc u)); vm_compute; auto. }
+        destruct (s_maglev (u_svc u)), (s_extlocal (u_svc u)), (s_intlocal (u_svc u)), (s_exclude (u_svc u)); vm_compute; auto. }
       apply in_app_or in H. destruct H as [H|H].
       { apply in_map_iff in H. destruct H as [a [E _]]. inversion E; subst. eapply G; [reflexivity|].
-        destruct (s_maglev (u_svc u)); vm_compute; auto. }
+        destruct (s_maglev (u_svc u)), (s_exclude (u_svc u)); vm_compute; auto. }
       destruct (s_np (u_svc u) =? 0); [contradiction|].
       apply in_map_iff in H. destruct H as [a [E _]]. inversion E; subst. eapply G; [reflexivity|].
-      destruct (s_extlocal (u_svc u)), (s_intlocal (u_svc u)); vm_compute; intros; discriminate.
+      destruct (s_extlocal (u_svc u)), (s_intlocal (u_svc u)), (s_exclude (u_svc u)); vm_compute; intros; discriminate.
 Qed.
 
 (* the desired frontend map and the desired LUT map are maglev-consistent *)
